@@ -133,6 +133,23 @@ HARNESSES += [
 ]
 
 
+HARNESSES += [
+    {"name": "process_start_parent", "props": ["C04", "C05", "C06", "C12", "C03"], "src": "h_process_start.c",
+     "contracts": ["public.h"], "includes": ["process.posix.c", "strv.c"], "enforce": "process_start",
+     "replace": ["process_fork", "path_prepend_cwd"],
+     "defs": {"SIDE_PARENT": None}, "unwind": 10,
+     "what": "process_start, parent side, every OS call fallible, process_fork/path_prepend_cwd "
+             "replaced by their contracts, strv_concat/strv_free by executable contracts (stubs in the harness): success is a live child that executed the program, failure leaves nothing"},
+    {"name": "process_start_child", "props": ["C10", "C11", "C12", "C03", "C04"], "src": "h_process_start.c",
+     "contracts": ["public.h"], "includes": ["process.posix.c", "strv.c"], "enforce": "process_start",
+     "replace": ["process_fork", "path_prepend_cwd"],
+     "defs": {"SIDE_CHILD": None}, "unwind": 10,
+     "what": "process_start, child side: symbolic, possibly aliasing child handles; the execvp contract of the OS layer "
+             "asserts stream identity and direction, close-on-exec of everything else, the exit handle, signal state, "
+             "program, argv, environment and working directory; failures go through the error pipe"},
+]
+
+
 def api(name, props, what, **kw):
     d = {"name": "reproc_" + name, "props": props, "src": "h_api.c", "contracts": ["public.h"],
          "includes": ["reproc.c"], "enforce": "reproc_" + name, "defs": {"API_" + name: None, "VERIF_MAX_BUF": "(1ul<<40)"},
